@@ -116,7 +116,7 @@ func runC15Race(p *C15RacePlan) (*stats.Case, error) {
 	for e := 0; e < p.Events; e++ {
 		ext := sc.u.Extend(target, 1, 0, 0x1d00ffff)
 		for _, nd := range sc.nodes {
-			nd.Mine(ext[len(target):], true) // all nodes announce the same block concurrently
+			nd.MineWhenReady(ext[len(target):], true, 3*time.Second) // all nodes announce the same block concurrently
 		}
 		target = ext
 		simnet.WaitQuiescent(sc.nodes, tipIs, 100*time.Millisecond, 6*time.Second)
